@@ -365,7 +365,7 @@ func (e *env) call(h admregv1.ValidatingWebhook, req *sim.AdmitRequest, win *win
 		TypeMeta: metav1.TypeMeta{APIVersion: "admission.k8s.io/v1", Kind: "AdmissionReview"},
 		Request: &admissionv1.AdmissionRequest{
 			UID: types.UID(uid), Kind: gvk, Resource: gvr, RequestKind: &gvk, RequestResource: &gvr,
-			SubResource: req.Sub, Name: req.Key.Name, Namespace: req.Key.Namespace,
+			SubResource: req.Sub, Name: map[bool]string{false: req.Key.Name, true: ""}[req.Collection], Namespace: req.Key.Namespace,
 			Operation: admissionv1.Operation(req.Operation),
 			UserInfo:  authnv1.UserInfo{Username: req.Actor},
 			OldObject: runtime.RawExtension{Raw: oldRaw},
